@@ -14,15 +14,18 @@ ASSUMPTIONS = [
     'the numerical core is an environment of deterministic uninterpreted functions of their arguments: InverseStart, Lambda12, Lengths, sincosd, sincosde, sin, cos, sqrt, atan2, hypot; Lambda12 reports convergence at its first call (the bookkeeping before and after the Newton loop does not depend on the iteration count). That the returned geodesic joins the points, is shortest, converges, agrees with GeodesicExact, or has a12 in [0,180] is NOT decided',
     '[REAL] semantics: AngDiff(x, y) is y - x with zero error term and AngRound, LatFix, AngNormalize are the identity (their rounding refinements and the reduction modulo 360 are outside the claim; periodicity in longitude is C04/C16); signed zeros do not exist in the real model',
     'inputs: latitudes of each sign pattern in (-90, 90) (both non-zero, or both exactly zero: the equatorial problem), non-zero longitude difference of each sign with |difference| < 180, |lat1| != |lat2| for the exchange (ties between equally short geodesics are excluded as the property allows); outmask = DISTANCE|AZIMUTH|REDUCEDLENGTH|GEODESICSCALE (AREA branch outside the claim); every ellipsoid-dependent member of the Geodesic object is arbitrary, the tolerance constants have their constructor values, _exact = false',
-    'GeodesicExact::GenInverse has the same bookkeeping text but is a separate function: not encoded',
+    'GeodesicExact::GenInverse (obligations X.*) is encoded in the same way; its EllipticFunction object is a token whose state is a deterministic function of the arguments of the Reset / Lambda12 call that last set it',
 ]
 MASK = 0x0400 | 0x0001 | 0x0200 | 0x1000 | 0x0004 | 0x2000
 OUTS = ['s12', 'salp1', 'calp1', 'salp2', 'calp2', 'm12', 'M12', 'M21', 'S12']
 
 def prepare(ctx):
-    H.ir_module(ctx, W); H.native(ctx, W)
+    H.ir_module(ctx, W); H.native(ctx, W); H.ir_module(ctx, WX); H.native(ctx, WX)
 
-def _run(ctx, lat1, lon1, lat2, lon2, assume):
+WX = 'w_GeodesicExact'
+GIX = '@_ZNK13GeographicLib13GeodesicExact10GenInverseEddddjRdS1_S1_S1_S1_S1_S1_S1_S1_'
+def _run(ctx, lat1, lon1, lat2, lon2, assume, exact=False):
+    if exact: return _run_exact(ctx, lat1, lon1, lat2, lon2, assume)
     m = H.ir_module(ctx, W); o = H.offsets(m, 'Geodesic')
     cells = {off: z3.Real('Geod_%d' % off) for off in range(0, H.sizeof(m, 'Geodesic'), 8)}
     cells.update({0: 83, 8: rsym.RV(Fraction(1, 2 ** 511)), 16: rsym.RV(Fraction(1, 2 ** 52)), 24: rsym.RV(Fraction(200, 2 ** 52)), 32: rsym.RV(Fraction(1, 2 ** 26)), 40: rsym.RV(Fraction(1, 2 ** 52)),
@@ -50,29 +53,71 @@ def _run(ctx, lat1, lon1, lat2, lon2, assume):
         return [rsym.Ptr('g', 0), lat1, lon1, lat2, lon2, MASK] + [rsym.Ptr('o', 8 * i) for i in range(9)]
     return ex.run_all(GI, mk)
 
-def ob_sym(ctx, which, s1, s2, sd):
+def _run_exact(ctx, lat1, lon1, lat2, lon2, assume):
+    """GeodesicExact::GenInverse: same bookkeeping text, elliptic-function core; the EllipticFunction object is a token (its state is a
+    deterministic function of the arguments of Reset / of the Lambda12 call that last reset it)"""
+    m = H.ir_module(ctx, WX); o = H.offsets(m, 'GeodesicExact')
+    cells = {off: z3.Real('GeodX_%d' % off) for off in range(0, H.sizeof(m, 'GeodesicExact'), 8)}
+    cells.update({0: 83, 8: rsym.RV(Fraction(1, 2 ** 511)), 16: rsym.RV(Fraction(1, 2 ** 52)), 24: rsym.RV(Fraction(200, 2 ** 52)), 32: rsym.RV(Fraction(1, 2 ** 26)), 40: rsym.RV(Fraction(1, 2 ** 52)), 48: rsym.RV(Fraction(1000, 2 ** 26))})
+    def U(name, n): return lambda ex, a, mem: ex.UF(name, n)(*a[:n])
+    def estate(mem, p_): return mem.get(p_.obj, {}).get(p_.off, z3.Real('E_unset'))
+    def outs(ex, mem, ptrs, tag, args):
+        for k, p_ in enumerate(ptrs): ex.store(mem, p_, None, ex.UF('%s_%d' % (tag, k), len(args))(*args))
+    def angdiff(ex, a, mem): ex.store(mem, a[2], None, rsym.RV(0)); return z3.simplify(a[1] - a[0])
+    def sincosd(ex, a, mem): ex.store(mem, a[1], None, ex.UF('sind', 1)(a[0])); ex.store(mem, a[2], None, ex.UF('cosd', 1)(a[0])); return None
+    def sincosde(ex, a, mem): ex.store(mem, a[2], None, ex.UF('sinde', 2)(a[0], a[1])); ex.store(mem, a[3], None, ex.UF('cosde', 2)(a[0], a[1])); return None
+    def reset(ex, a, mem): ex.store(mem, a[0], None, ex.UF('E_reset', 4)(*a[1:5])); return None
+    def invstart(ex, a, mem): args = [estate(mem, a[1])] + a[2:11]; outs(ex, mem, a[11:16], 'ISX', args); return ex.UF('ISX_sig12', 10)(*args)
+    def lambda12(ex, a, mem):
+        args = a[1:11]; outs(ex, mem, a[11:18], 'L12X', args); ex.store(mem, a[18], None, ex.UF('L12X_E', 10)(*args)); ex.store(mem, a[19], None, ex.UF('L12X_domg', 10)(*args))
+        if isinstance(a[20], int) and (a[20] & 1): ex.store(mem, a[21], None, ex.UF('L12X_dlam', 10)(*args))
+        return rsym.RV(0)
+    def lengths(ex, a, mem): args = [estate(mem, a[1])] + a[2:11]; outs(ex, mem, a[12:17], 'LENX', args); return None
+    opq = {'@_ZN13GeographicLib4Math7AngDiffIdEET_S2_S2_RS2_': angdiff, '@_ZN13GeographicLib4Math8AngRoundIdEET_S2_': lambda ex, a, mem: a[0],
+           '@_ZN13GeographicLib4Math7sincosdIdEEvT_RS2_S3_': sincosd, '@_ZN13GeographicLib4Math8sincosdeIdEEvT_S2_RS2_S3_': sincosde,
+           '@_ZN13GeographicLib16EllipticFunction5ResetEdddd': reset,
+           '@_ZNK13GeographicLib13GeodesicExact12InverseStartERNS_16EllipticFunctionEdddddddddRdS3_S3_S3_S3_': invstart,
+           '@_ZNK13GeographicLib13GeodesicExact8Lambda12EddddddddddRdS1_S1_S1_S1_S1_S1_RNS_16EllipticFunctionES1_bS1_': lambda12,
+           '@_ZNK13GeographicLib13GeodesicExact7LengthsERKNS_16EllipticFunctionEdddddddddjRdS4_S4_S4_S4_': lengths, '@_ZN13GeographicLib4Math3NaNIdEET_v': lambda ex, a, mem: z3.Real('NaN'),
+           '@_ZN13GeographicLib4Math2piIdEET_v': lambda ex, a, mem: rsym.RV(Fraction(884279719003555, 281474976710656))}
+    ex = rsym.Exec(m, opaque=opq, libm={'sqrt': U('sqrt', 1), 'hypot': U('hypot', 2), 'atan2': U('atan2', 2), 'sin': U('sin', 1), 'cos': U('cos', 1)}, assume=list(assume), path_cap=512, timeout_ms=3000)
+    def mk(ex, mem):
+        ex.new_obj(mem, 'g', dict(cells)); ex.new_obj(mem, 'o', {8 * i: z3.Real('untouched_%s' % OUTS[i]) for i in range(9)})
+        return [rsym.Ptr('g', 0), lat1, lon1, lat2, lon2, MASK] + [rsym.Ptr('o', 8 * i) for i in range(9)]
+    return ex.run_all(GIX, mk)
+
+def ob_sym(ctx, which, s1, s2, sd, exact=False):
     """which: 'equator' | 'meridian' | 'exchange'; s1, s2: signs of the latitudes; sd: sign of the longitude difference"""
     la1, la2, L, D = z3.Real('alat1'), z3.Real('alat2'), z3.Real('L'), z3.Real('D')      # |lat1|, |lat2| > 0, lon1 = L, lon2 = L + sd D, D > 0
     base = [la1 > 0, la1 < 90, la2 > 0, la2 < 90, D > 0, D < 180]
     if which == 'exchange' and s1 and s2: base.append(la1 != la2)
     lat1, lat2 = (la1 if s1 > 0 else -la1 if s1 < 0 else rsym.RV(0)), (la2 if s2 > 0 else -la2 if s2 < 0 else rsym.RV(0))
     lon1, lon2 = L, (L + D if sd > 0 else L - D)
-    A = _run(ctx, lat1, lon1, lat2, lon2, base)
+    A = _run(ctx, lat1, lon1, lat2, lon2, base, exact)
     neg = rsym.rneg
-    if which == 'equator': B = _run(ctx, neg(lat1), lon1, neg(lat2), lon2, base)
-    elif which == 'meridian': B = _run(ctx, lat1, neg(lon1), lat2, (neg(L) - D if sd > 0 else neg(L) + D), base)
-    else: B = _run(ctx, lat2, lon2, lat1, lon1, base)
+    if which == 'equator': B = _run(ctx, neg(lat1), lon1, neg(lat2), lon2, base, exact)
+    elif which == 'meridian': B = _run(ctx, lat1, neg(lon1), lat2, (neg(L) - D if sd > 0 else neg(L) + D), base, exact)
+    else: B = _run(ctx, lat2, lon2, lat1, lon1, base, exact)
     exp = {'equator': {'a12': ('a12', 1), 's12': ('s12', 1), 'm12': ('m12', 1), 'M12': ('M12', 1), 'M21': ('M21', 1), 'salp1': ('salp1', 1), 'salp2': ('salp2', 1), 'calp1': ('calp1', -1), 'calp2': ('calp2', -1)},
            'meridian': {'a12': ('a12', 1), 's12': ('s12', 1), 'm12': ('m12', 1), 'M12': ('M12', 1), 'M21': ('M21', 1), 'salp1': ('salp1', -1), 'salp2': ('salp2', -1), 'calp1': ('calp1', 1), 'calp2': ('calp2', 1)},
            'exchange': {'a12': ('a12', 1), 's12': ('s12', 1), 'm12': ('m12', 1), 'M12': ('M21', 1), 'M21': ('M12', 1), 'salp1': ('salp2', -1), 'calp1': ('calp2', -1), 'salp2': ('salp1', -1), 'calp2': ('calp1', -1)}}[which]
     def val(p, k): return p.ret if k == 'a12' else p.mem['o'][8 * OUTS.index(k)]
-    q = 0; ss = 0.0; bad = None; unk = []; pairs = 0
+    q = 0; ss = 0.0; bad = None; unk = []; pairs = 0; triv = 0
     s = z3.Solver(); s.set('timeout', 5000)
-    for pa in A:
-        ka = {z3.simplify(c).sexpr() for c in pa.cond}
-        for pb in B:
-            if any(z3.simplify(z3.Not(c)).sexpr() in ka for c in pb.cond): continue
-            kb = {z3.simplify(c).sexpr() for c in pb.cond}
+    implied_cache = {}
+    def implied_by_base(c):
+        """decisions that the sign pattern alone settles (they differ textually between the two runs) are not part of a path's identity"""
+        k = c.sexpr()
+        if k not in implied_cache:
+            s.push(); s.add(*base); s.add(z3.Not(c)); implied_cache[k] = (s.check() == z3.unsat); s.pop()
+        return implied_cache[k]
+    def keys(p):
+        cs = [z3.simplify(c) for c in p.cond]; cs = [c for c in cs if not implied_by_base(c)]
+        ks = frozenset(c.sexpr() for c in cs); ns = frozenset(z3.simplify(z3.Not(c)).sexpr() for c in cs); return ks, ns
+    KA = [keys(p) for p in A]; KB = [keys(p) for p in B]
+    for pa, (ka, na) in zip(A, KA):
+        for pb, (kb, nb) in zip(B, KB):
+            if nb & ka or na & kb: continue          # the two runs branch on the same normalised terms: contradictory decisions -> infeasible pair
             cond = base + list(pa.cond) + list(pb.cond)
             if ka != kb:
                 s.push(); s.add(*cond); feas = s.check(); s.pop()
@@ -81,11 +126,12 @@ def ob_sym(ctx, which, s1, s2, sd):
             for k, (k2, sg) in exp.items():
                 va, vb = val(pa, k), val(pb, k2)
                 cl = z3.simplify(va == (vb if sg > 0 else rsym.rneg(vb)))
+                if z3.is_true(cl): q += 1; triv += 1; continue          # identical terms: z3's simplifier already reduces the claim to true
                 st, model, dt = rsym.prove(cl, cond, timeout_ms=20000); q += 1; ss += dt
-                if st == 'sat' and bad is None: bad = {'kind': 'c02sym', 'which': which, 'signs': [s1, s2, sd], 'output': k, 'expected': '%s%s of the transformed problem' % ('' if sg > 0 else '-', k2)}
+                if st == 'sat' and bad is None: bad = {'kind': 'c02sym', 'exact': bool(exact), 'which': which, 'signs': [s1, s2, sd], 'output': k, 'expected': '%s%s of the transformed problem' % ('' if sg > 0 else '-', k2)}
                 elif st == 'unknown': unk.append(k)
-    r = {'queries': q, 'nontrivial': q, 'solver_s': round(ss, 3), 'functions': ['GeographicLib::Geodesic::GenInverse (13-argument overload)'],
-         'bounds': {'sign pattern (lat1, lat2, lon2-lon1)': [s1, s2, sd], 'paths': [len(A), len(B)], 'feasible path pairs': pairs, 'Newton iterations': 1}}
+    r = {'queries': q, 'nontrivial': q, 'solver_s': round(ss, 3), 'functions': ['GeographicLib::%s::GenInverse (13-argument overload)' % ('GeodesicExact' if exact else 'Geodesic')],
+         'bounds': {'sign pattern (lat1, lat2, lon2-lon1)': [s1, s2, sd], 'paths': [len(A), len(B)], 'feasible path pairs': pairs, 'claims reduced to true by z3.simplify': triv, 'Newton iterations': 1}}
     if bad: r.update({'verdict': 'violated', 'detail': 'GenInverse under %s: output %s is not %s' % (which, bad['output'], bad['expected']), 'cex': bad})
     elif unk: r.update({'verdict': 'inconclusive', 'detail': 'unknown on outputs %r' % sorted(set(unk))})
     elif pairs == 0: r.update({'verdict': 'inconclusive', 'detail': 'no feasible path pair'})
@@ -104,11 +150,17 @@ def obligations(ctx):
             if which in ('exchange', 'equator') and s1 == 0: continue      # equatorial problems are their own mirror image / an exchange tie (the documented non-uniqueness): only the meridian reflection is decided for them
             obs.append(Ob('S.%s.%s%s%s' % (which, '+' if s1 > 0 else '-' if s1 < 0 else '0', '+' if s2 > 0 else '-' if s2 < 0 else '0', 'E' if sd > 0 else 'W'), (lambda ctx, w=which, a=s1, b=s2, c=sd: ob_sym(ctx, w, a, b, c)), '[REAL] core opaque', 'E2 rsym+z3',
                           'Geodesic::GenInverse, ' + desc[which], timeout=1500, tier='quick' if (which, s1, s2, sd) in QUICK else 'thorough', bounds={'signs': [s1, s2, sd]}))
+    QX = {('meridian', 0, 0, 1), ('meridian', 0, 0, -1)}
+    for which in ('equator', 'meridian', 'exchange'):
+        for s1, s2, sd in pats:
+            if which in ('exchange', 'equator') and s1 == 0: continue
+            obs.append(Ob('X.%s.%s%s%s' % (which, '+' if s1 > 0 else '-' if s1 < 0 else '0', '+' if s2 > 0 else '-' if s2 < 0 else '0', 'E' if sd > 0 else 'W'), (lambda ctx, w=which, a=s1, b=s2, c=sd: ob_sym(ctx, w, a, b, c, True)), '[REAL] core opaque', 'E2 rsym+z3',
+                          'GeodesicExact::GenInverse, ' + desc[which], timeout=1500, tier='quick' if (which, s1, s2, sd) in QX else 'thorough', bounds={'signs': [s1, s2, sd]}))
     return obs
 
 def replay(rp):
     """real code (WGS84 and a prolate ellipsoid): the symmetry evaluated at a few points of the sign pattern of the counterexample"""
-    cex = rp['cex']; lib = H.native({}, W); f = lib.vf_geninverse; f.restype = ctypes.c_double; f.argtypes = [ctypes.c_double] * 6 + [ctypes.c_void_p]
+    cex = rp['cex']; lib = H.native({}, WX if cex.get('exact') else W); f = lib.vf_geninverse_exact if cex.get('exact') else lib.vf_geninverse; f.restype = ctypes.c_double; f.argtypes = [ctypes.c_double] * 6 + [ctypes.c_void_p]
     s1, s2, sd = cex['signs']; worst = 0; msg = ''
     for (a, fl) in ((6378137.0, 1 / 298.257223563), (6.4e6, -1 / 150.0)):
         for (la1, la2, L, D) in ((30.0, 50.0, 10.0, 70.0), (65.0, 20.0, -100.0, 150.0), (5.0, 80.0, 170.0, 40.0), (45.0, 44.0, 0.0, 179.0), (12.0, 11.0, 20.0, 179.7), (1.0, 2.0, -50.0, 179.9), (70.0, 71.0, 3.0, 0.001)):
@@ -120,12 +172,12 @@ def replay(rp):
             else: a12B = f(a, fl, lat2, lon2, lat1, lon1, B); want = [B[0], -B[3], -B[4], -B[1], -B[2], B[5], B[7], B[6]]
             dev = max([abs(A[i] - want[i]) / max(1.0, abs(A[i])) for i in range(8)] + [abs(a12A - a12B)])
             if dev > worst: worst = dev; msg = 'a=%g f=%g (%g,%g)->(%g,%g): outputs %s vs expected from the transformed problem %s' % (a, fl, lat1, lon1, lat2, lon2, ['%.9g' % x for x in list(A)[:8]], ['%.9g' % x for x in want])
-    return worst > 1e-9, 'Geodesic::GenInverse on the real code, %s, sign pattern %r: largest relative asymmetry %.3g; %s' % (cex['which'], cex['signs'], worst, msg)
+    return worst > 1e-9, ('GeodesicExact' if cex.get('exact') else 'Geodesic') + '::GenInverse on the real code, %s, sign pattern %r: largest relative asymmetry %.3g; %s' % (cex['which'], cex['signs'], worst, msg)
 
 MANIFEST = {
     'engine': 'E2',
     'technique': 'symbolic execution of the clang IR of Geodesic::GenInverse over z3 reals, run on a problem and on its reflected / exchanged image with the numerical core as deterministic uninterpreted functions; outputs compared path pair by path pair (z3 validity queries)',
-    'text': 'Bounded solver verdicts on the real code: the canonical-form bookkeeping of the series inverse solver (sign of the longitude difference, end-point swap, hemisphere flip and their restoration in s12, the azimuth sines/cosines, m12, M12, M21, a12) '
+    'text': 'Bounded solver verdicts on the real code: the canonical-form bookkeeping of the series and of the exact inverse solver (sign of the longitude difference, end-point swap, hemisphere flip and their restoration in s12, the azimuth sines/cosines, m12, M12, M21, a12) '
             'makes the outputs transform exactly as the symmetries of the problem demand under reflection in the equator, reflection in a meridian and exchange of the end points, for all 8 sign patterns of the inputs.',
-    'note': 'Numerical core opaque (uninterpreted): joining the points, shortestness, convergence, a12 range, agreement with GeodesicExact are not decided; one Newton evaluation; real semantics (no signed zeros, AngDiff = difference); ties excluded; AREA and GeodesicExact not encoded. Trusted: clang-14, vfw/irparse+rsym, z3.',
+    'note': 'Numerical core opaque (uninterpreted): joining the points, shortestness, convergence, a12 range, agreement with GeodesicExact are not decided; one Newton evaluation; real semantics (no signed zeros, AngDiff = difference); ties excluded; AREA branch not encoded. Trusted: clang-14, vfw/irparse+rsym, z3.',
 }
